@@ -91,7 +91,7 @@ def validate_execute_step(a):
             a.candidates.append(c)
 
 
-def replay_exit_codes(a, structured=False):
+def replay_exit_codes(a, structured=False, fmt="json"):
     """plain `validate` over sequences of <= 3 rules files (PASS / FAIL / SKIP / syntactically broken) on one document, as
     files and as a --payload document: exit 0 iff nothing failed or errored, 19 if all parse and one FAILs, 5 if one does
     not parse and nothing FAILs, non-zero otherwise"""
@@ -123,7 +123,7 @@ def replay_exit_codes(a, structured=False):
                     cmd = [exe, "validate", "--payload", "--show-summary", "none"]
                     inp = json.dumps({"rules": [texts[k] for k in seq], "data": [data]})
                 if structured:
-                    cmd += ["--structured", "-o", "json"]
+                    cmd += ["--structured", "-o", fmt]
                 pr = subprocess.run(cmd, input=inp, stdout=subprocess.PIPE, stderr=subprocess.PIPE, text=True, timeout=120)
                 rc = pr.returncode
                 ok = {"zero": rc == 0, "19": rc == 19, "5": rc == 5, "nonzero": rc != 0}[exp]
@@ -132,6 +132,148 @@ def replay_exit_codes(a, structured=False):
         return {"reproduced": bool(out), "mismatches": out[:5], "document": data, "sequences_tried": len(seqs) * 2}
     finally:
         shutil.rmtree(d, ignore_errors=True)
+
+
+def junit_report(a):
+    """JUnit path: the per-pair closure (counters) and the report function (counters -> exit code)"""
+    OK, ERR, FAILC = consts(a)
+    TCS = enum_variants(a.src, "commands/reporters/mod.rs", "TestCaseStatus")
+    TC = struct_fields(a.src, "commands/reporters/mod.rs", "TestCase")
+    XML = r"xml::<impl at guard/src/commands/reporters/validate/xml\.rs:\d+:\d+: \d+:\d+>::report"
+    # --- closure: one (document, rules file) pair
+    ex = a.exec(XML + r"::\{closure#0\}", {"get_test_case": m_result_opq}, log=("push",), unroll=1, max_paths=2000)
+    a.fns.append("commands::reporters::validate::xml::JunitReporter::report::{closure#0}")
+    envv, acc, pair = ex.arg_env["_1"], ex.arg_env["_2"], ex.arg_env["_3"]
+    each = field(ex, envv, 0, "&&DataFile")
+    f0, e0, t0 = (field(ex, envv, i, "&mut usize") for i in (1, 2, 3))
+    bad = []
+    for p in ex.paths:
+        r = p.ret
+        gt = calls(p, "get_test_case")
+        if p.outcome != "return" or not r or r[0] != "enum" or len(gt) != 1:
+            # the only panic allowed: counter overflow at usize::MAX
+            bad.append(f"(and {pc_term(p.pc)} (< {f0[1]} 18446744073709551615) (< {e0[1]} 18446744073709551615) (< {t0[1]} 18446744073709551615))"
+                       if p.outcome == "panic" and f0[0] == "int" else pc_term(p.pc))
+            continue
+        wired = (same(gt[0][2][0], each) and same(gt[0][2][1], field(ex, pair, 0, "RulesFile")) and same(gt[0][2][2], field(ex, pair, 1, "&str")))
+        tc = gt[0][3][3]["Ok"]
+        st = disc(ex, field(ex, tc, TC.index("status"), "TestCaseStatus"))
+        stores = p.env.get("$stores") or {}
+
+        def final(v, idx):
+            s_ = stores.get((envv[1], f".{idx}"))
+            return s_[1] if s_ and s_[0] == "int" else v[1]
+        f1, e1, t1 = final(f0, 1), final(e0, 2), final(t0, 3)
+        pushes = [e for e in calls(p, "push") if len(e[2]) == 2]
+        ok_push = len(pushes) == 1 and same(pushes[0][2][0], acc) and same(pushes[0][2][1], tc)
+        good_ok = (f"(and (= {gt[0][3][2]} 0) (= {f1} (+ {f0[1]} (ite (= {st} {TCS.index('Fail')}) 1 0))) "
+                   f"(= {e1} (+ {e0[1]} (ite (= {st} {TCS.index('Error')}) 1 0))) (= {t1} (+ {t0[1]} 1)))") if (ok_push and wired and f0[0] == "int") else "false"
+        good = f"(ite (= {r[2]} 0) {good_ok} (= {gt[0][3][2]} 1))"
+        bad.append(f"(and {pc_term(p.pc)} (not {good}))")
+    c1 = a.discharge("junit/report-closure/counters", ex, bad,
+                "JUnit path, one pair: the test case is built from THIS document and THIS rules file; `failures` is incremented iff the "
+                     "case is marked Fail, `errors` iff Error, `tests` always; the case is appended; an evaluation error is passed on")
+    # --- report(): counters -> exit code
+    jr = struct_fields(a.src, "commands/reporters/mod.rs", "JunitReporter")
+
+    def m_update(ex, argv):
+        return ex.opq()
+    ex = a.exec(XML, {"try_fold": m_result_opq, "update_exit_code": m_update, "serialize": mirexec.m_result_unit,
+                      "next": mirexec.m_iter_next, "into_iter": mirexec.m_new_iter, "iter": mirexec.m_new_iter,
+                      "default": lambda ex, av: ex.opq(), "to_string": mirexec.m_identity, "new": lambda ex, av: ex.opq(),
+                      "elapsed": lambda ex, av: ex.opq(), "as_millis": lambda ex, av: ex.opq(), "now": lambda ex, av: ex.opq()},
+                log=("push",), unroll=1, max_paths=20000, first_arg_re=r"_1: &mut (?:reporters::)?JunitReporter")
+    a.fns.append("commands::reporters::validate::xml::JunitReporter::report")
+    me = ex.arg_env["_1"]
+    bad = []
+    for p in ex.paths:
+        r = p.ret
+        if p.outcome == "panic":
+            continue            # counter additions at usize::MAX
+        if not r or r[0] != "enum":
+            bad.append(pc_term(p.pc))
+            continue
+        ups = calls(p, "update_exit_code")
+        tf = calls(p, "try_fold")
+        # the totals the function branched on: debug names total_errors / total_failures
+        te = p.env.get(ex.debug_names.get("total_errors", ""))
+        tfail = p.env.get(ex.debug_names.get("total_failures", ""))
+        if not te or not tfail or te[0] != "int" or tfail[0] != "int":
+            bad.append(pc_term(p.pc))
+            continue
+        okv = r[3].get("Ok")
+        if r[2] == "0" or (okv is not None):
+            codes = [u[2][1] for u in ups if len(u[2]) == 2]
+            want_err = f"(> {te[1]} 0)"
+            want_fail = f"(and (not (> {te[1]} 0)) (> {tfail[1]} 0))"
+            if len(ups) == 1 and codes[0] == ("int", str(ERR)):
+                good = want_err
+            elif len(ups) == 1 and codes[0] == ("int", str(FAILC)):
+                good = want_fail
+            elif not ups:
+                good = f"(and (not {want_err}) (not {want_fail}))"
+            else:
+                good = "false"
+            ok_ret = okv is not None and same(okv, field(ex, me, jr.index("exit_code"), "i32"))
+            bad.append(f"(and {pc_term(p.pc)} (= {r[2]} 0) (not {good if ok_ret else 'false'}))")
+    c2 = a.discharge("junit/report/totals-to-exit-code", ex, bad,
+                     "JUnit path, <= 1 document: update_exit_code(ERROR) iff the error total is > 0, update_exit_code(FAILURE) iff it is 0 and "
+                     "the failure total is > 0, neither otherwise; the value returned is the reporter's exit code field")
+    for c in (c1, c2):
+        if c:
+            c["replay"] = replay_exit_codes(a, structured=True, fmt="junit")
+            c["reproduced"] = c["replay"].get("reproduced", False)
+            a.candidates.append(c)
+
+
+def structured_parse_closure(a):
+    """--structured: parsing the rules files (try_fold closure): a parse error sets the exit code to ERROR and the file is
+    skipped; a parsed file is appended with its own name; an empty file is skipped silently"""
+    OK, ERR, FAILC = consts(a)
+    SE = struct_fields(a.src, "commands/reporters/validate/structured.rs", "StructuredEvaluator")
+    RFI = struct_fields(a.src, "commands/validate.rs", "RuleFileInfo")
+
+    def m_parse(ex, argv):
+        return ex.fresh_result(ex.fresh_enum("Option", 2, "parsed", {"Some": ex.opq()}), "parse")
+    ex = a.exec(r"reporters::validate::structured::<impl at guard/src/commands/reporters/validate/structured\.rs:\d+:\d+: \d+:\d+>::evaluate::\{closure#0\}",
+                {"parse_rules": m_parse, "write_err": mirexec.m_result_unit, "underline": lambda ex, av: ex.opq()},
+                log=("push",), unroll=1, max_paths=2000)
+    a.fns.append("commands::reporters::validate::structured::StructuredEvaluator::evaluate::{closure#0}")
+    envv, acc, info = ex.arg_env["_1"], ex.arg_env["_2"], ex.arg_env["_3"]
+    me = field(ex, envv, 0, "&mut &mut StructuredEvaluator")
+    key = (me[1], f".{SE.index('exit_code')}") if me[0] == "opaque" else None
+    code0 = field(ex, me, SE.index("exit_code"), "i32")
+    bad = []
+    for p in ex.paths:
+        r = p.ret
+        pr = calls(p, "parse_rules")
+        if p.outcome != "return" or not r or r[0] != "enum" or len(pr) != 1:
+            bad.append(pc_term(p.pc))
+            continue
+        ptag, otag = pr[0][3][2], pr[0][3][3]["Ok"][2]
+        parsed = pr[0][3][3]["Ok"][3].get("Some")
+        args_ok = same(pr[0][2][0], field(ex, info, RFI.index("content"), "String")) and same(pr[0][2][1], field(ex, info, RFI.index("file_name"), "String"))
+        st = (p.env.get("$stores") or {}).get(key)
+        code1 = st[1] if st and st[0] == "int" else code0[1]
+        pushes = [e for e in calls(p, "push") if len(e[2]) == 2]
+        if pushes:
+            tup = pushes[0][2][1]
+            okp = (len(pushes) == 1 and same(pushes[0][2][0], acc) and tup[0] == "tuple" and same(tup[1][0], parsed)
+                   and same(tup[1][1], field(ex, info, RFI.index("file_name"), "String")))
+            good = f"(and (= {ptag} 0) (= {otag} 1) (= {code1} {code0[1]}) (= {r[2]} 0))" if okp else "false"
+        else:
+            werr = "(or false " + " ".join(f"(= {e[3][2]} 1)" for e in calls(p, "write_err") if e[3][0] == "enum") + ")"
+            good = (f"(or (and (= {ptag} 1) (or (and (= {r[2]} 0) (= {code1} {ERR})) {werr})) "
+                    f"(and (= {ptag} 0) (= {otag} 0) (= {r[2]} 0) (= {code1} {code0[1]})))")
+        bad.append(f"(and {pc_term(p.pc)} (not {good if args_ok else 'false'}))")
+    c = a.discharge("structured/parse-closure", ex, bad,
+                    f"--structured, one rules file: parsed from its own content under its own name; a parse error sets the exit code to "
+                    f"{ERR} and the file is left out; an empty rules file is left out without touching the exit code; a parsed file is "
+                    "appended with its own name")
+    if c:
+        c["replay"] = replay_exit_codes(a, structured=True)
+        c["reproduced"] = c["replay"].get("reproduced", False)
+        a.candidates.append(c)
 
 
 def opt_some(v):
@@ -1264,7 +1406,7 @@ def replay_fail_rule_listed(a):
 
 
 SITES = {
-    "C06": [structured_report, junit_exit_code, junit_test_case, validate_execute_step, test_generic_report],
+    "C06": [structured_report, structured_parse_closure, junit_exit_code, junit_test_case, junit_report, validate_execute_step, test_generic_report],
     "C12": [structured_report, junit_test_case, data_input_wiring, test_get_by_result],
     "C16": [test_generic_report, test_get_by_result, test_get_by_rules],
     "C09": [report_partition, report_rule_listing],
